@@ -72,11 +72,17 @@ pub fn file_event(id: u64, tag: &str, dir: &Path, qr: &QRCode, prog: &[Call], re
 pub fn fileio(sink: &mut Sink, seed: u64, thorough: bool, behaviours: &str) {
     let dir = scratch();
     let beh: Vec<Value> = std::fs::read_to_string(behaviours).unwrap_or_default().lines().filter_map(|l| serde_json::from_str(l).ok()).collect();
-    let versions: &[usize] = if thorough { &[1, 2, 5, 9, 14, 20] } else { &[1, 3] };
+    let versions: &[usize] = if thorough { &[1, 2, 5, 9, 14, 20, 3, 7] } else { &[1, 3, 2, 4] };
     for (vi, &v) in versions.iter().enumerate() {
         let qr = qr_of(v, seed);
         for renderer in ["svg", "png"] {
-            let prog: Vec<Call> = if vi % 2 == 0 { vec![] } else { vec![Call::Margin(2), Call::Shape(1 + vi % 5)] };
+            // the file must hold the rendering of THIS builder: options that change the bytes (margin, shape, colours, fit)
+            let prog: Vec<Call> = match vi % 4 {
+                0 => vec![],
+                1 => vec![Call::Margin(2), Call::Shape(1 + vi % 5)],
+                2 => vec![Call::BackgroundColor(vec![250, 240, 230, 64]), Call::ModuleColor(vec![18, 52, 86, 255]), Call::FitWidth(96), Call::Margin(1)],
+                _ => vec![Call::Margin(0), Call::ShapeColor(0, vec![200, 30, 40, 255]), Call::FitHeight(150), Call::Image("logo.png".into())],
+            };
             let len = if renderer == "svg" { svg_builder(&prog).to_str(&qr).len() as u64 } else { image_builder(&prog).to_bytes(&qr).map(|b| b.len()).unwrap_or(0) as u64 };
             for b in &beh {
                 let fault = b["fault"].as_str().unwrap_or("none");
